@@ -59,6 +59,11 @@ class Ex:
             if self.point is not None and T.dotted(e.value) == "mesh.vertices" and isinstance(e.slice, ast.Name) \
                     and e.slice.id == self.point:
                 return ("v", "p")
+            if isinstance(e.slice, ast.Constant) and e.slice.value in (0, 1, 2) and not isinstance(e.slice.value, bool):
+                t, c = self.tr(e.value)
+                if t != "v":
+                    T.fail(rel, e, "component of a non-vector")
+                return ("s", "(v%s %s)" % ("xyz"[e.slice.value], c))
             T.fail(rel, e, "unsupported subscript")
         if isinstance(e, ast.UnaryOp) and isinstance(e.op, ast.USub):
             t, c = self.tr(e.operand)
